@@ -199,7 +199,7 @@ def _payload_fields(facts, variant_path):
     return st, {fl["name"]: fl["ty"] for fl in st["variants"][0]["fields"]}
 
 
-def _returned_field(e):
+def _returned_field(e, pat=None):
     """Field name if the arm value is `b.f`, `Some(b.f)`, `b.f.clone()`, `Some(b.f.clone())`, with its base local id."""
     while e is not None and e.get("k") == "block" and not e.get("stmts"):
         e = e.get("e")
@@ -209,12 +209,21 @@ def _returned_field(e):
         e = e["args"][0]
     while e.get("k") == "mcall" and e["name"] == "clone":
         e = e["recv"]
+    while e.get("k") in ("unary", "addrof"):
+        e = e["e"]
     if e.get("k") == "field":
         b = e["e"]
         while b.get("k") in ("unary", "addrof"):
             b = b["e"]
         if b.get("k") == "path" and b.get("res") == "local":
             return (e["name"], b["id"])
+    if e.get("k") == "path" and e.get("res") == "local" and pat is not None:
+        # the field taken out by the arm's pattern: `Section(Section { line, .. }) => Some(*line)`
+        for lid, p in q.pat_positions(pat):
+            if lid == e["id"]:
+                last = p.split(">")[-1].rsplit(".", 1)
+                if len(last) == 2 and last[1] and not last[1].isdigit():
+                    return (last[1], lid)
     return None
 
 
@@ -261,7 +270,7 @@ def rule_r3(facts, rep, rid="C20-R3"):
                     else:
                         rep.ok(rid, key, "refuses: variant has no `%s`" % field, aloc, nontrivial=False)
                 continue
-            rf = _returned_field(arm["body"])
+            rf = _returned_field(arm["body"], arm["pat"])
             if has:
                 if rf and rf[0] == field and rf[1] in [i for _, i in binds]:
                     rep.ok(rid, key, "returns its own `%s`" % field, aloc)
@@ -462,11 +471,11 @@ def rule_r8(facts, rep, rid="C20-R8"):
     rep.saw_fn(f)
     c = ctx(f)
     aff = None
-    for x in fb.walk(f.body):
-        if x.get("k") == "let" and x.get("init") is not None and any(
-                y.get("k") == "mcall" and (fb.callee(y) or "").endswith(("Graph::get_block_references_to", "Graph::get_inline_references_to")) for y in fb.walk(x["init"])):
-            aff = x
-            break
+    cands = [x for x in fb.walk(f.body) if x.get("k") == "let" and x.get("init") is not None and any(
+        y.get("k") == "mcall" and (fb.callee(y) or "").endswith(("Graph::get_block_references_to", "Graph::get_inline_references_to")) for y in fb.walk(x["init"]))]
+    if cands:
+        # the innermost such `let` (an enclosing `let renamed = ..map(|url| { .. })` contains it too)
+        aff = min(cands, key=lambda x: ((x["init"].get("s") or [0, 1 << 60])[1] - (x["init"].get("s") or [0, 0])[0]))
     key = f.def_ + "|affected-keys-unique"
     if aff is None:
         rep.anchor_missing(rid, "the `let` in handle_rename that collects the referrers of the renamed key")
